@@ -148,15 +148,22 @@ def run_case(case):
             f0 = float(rng.uniform(0.02, 0.6))
             fac = [f0, f0 + float(rng.uniform(0.02, 0.3))]
             pad = float(rng.choice([0.2, 0.2, 0.05, 0.5, 1.0]))
+            u = rng.random()
+            if u < 0.15:
+                pad = 0.0                                         # "between 0 and 1": no padding at all
+            elif u < 0.35:
+                pad = float(rng.uniform(0.02, 0.98)) / n          # fewer than one padding sample asked for
+            elif u < 0.45:
+                pad = float(rng.integers(1, 4)) / n               # exactly 1..3 padding samples
             c = float(rng.uniform(-5, 5))
-            label = f"lp n={n} fac={np.round(fac, 3).tolist()} pad={pad}"
+            label = f"lp n={n} fac={np.round(fac, 3).tolist()} pad={pad:.6g} (n*pad={n * pad:.3g})"
             try:
                 out = SM.lp(np.full(n, c), fac, pad=pad)
-                res.check(out.shape == (n,), "smooth:lp-length", f"{label}: output length {out.shape}", counter="smooth_constants")
+                res.check(out.shape == (n,), "smooth:lp-length" + (":pad0" if pad == 0 else ""), f"{label}: output length {out.shape}", counter="smooth_constants")
                 if out.shape == (n,):
                     res.check(np.max(np.abs(out - c)) <= 1e-12 * max(1, abs(c)), "smooth:lp-constant", f"{label}: constant {c} becomes {out[:3]}")
                 xr = rng.standard_normal(n)
-                res.check(SM.lp(xr, fac, pad=pad).shape == (n,), "smooth:lp-length", f"{label}: random input changes length")
+                res.check(SM.lp(xr, fac, pad=pad).shape == (n,), "smooth:lp-length" + (":pad0" if pad == 0 else ""), f"{label}: random input changes length")
                 sigs.add(("smooth", n // 50))
             except Exception as e:
                 res.exception("smooth:lp-exception", e, label)
